@@ -1,0 +1,14 @@
+//go:build !verif
+
+// Package verifhook provides named instrumentation points for external verification tooling.
+// Without the build tag `verif` every function here is an empty, inlineable no-op.
+package verifhook
+
+// Enabled reports whether the hooks are compiled in.
+const Enabled = false
+
+// At marks a named site. No-op in normal builds.
+func At(site string) {}
+
+// Set installs a handler. No-op in normal builds.
+func Set(f func(site string)) {}
